@@ -140,7 +140,7 @@ PROPS = {
                 "loss bursts of length 1..10 on requests or on responses in 3/4 of the runs (bursts of 7 and more only in 1/5 of those), idle gaps of 1 h..5 d between attempts in 1/3 of the runs "
                 "(server key renewal and retirement, cookies expiring, re-keying); every request and reply on the wire is parsed by the harness's own RFC 8915 field walker and authenticated independently with miscreant; "
                 "non-trivial = at least two successful exchanges; distinct = distinct event-log hash",
-        "required_probes": ["exchange-ok", "exchange-ok:ip", "exchange-ok:scion", "reply-verified", "re-keyed", "pool-restored", "request-at-level-8", "request-at-level-5"],
+        "required_probes": ["exchange-ok", "exchange-ok:ip", "exchange-ok:scion", "reply-verified", "re-keyed", "pool-restored", "request-at-level-8", "request-at-level-5", "recovered-after-server-restart", "request-at-level-1"],
         "components": {"real": ["net/ntske Fetcher (FetchData, StoreCookie), Provider, cookies", "net/nts NewRequestPacket, EncodePacket, DecodePacket, ProcessRequest/Response, NewResponsePacket",
                                 "core/server runIPServer, runSCIONServer (authenticated branches), handleKeyExchangeTLS", "core/client IPClient, SCIONClient", "crypto/tls"],
                        "stub": dict(STUBS_COMMON, **{"kernel UDP/TCP": "simnet", "SCION border routers": "one relay router", "NTS-KE transport of the SCION client": "TLS on simulated TCP (production wiring: QUIC over SCION, not simulated)"})},
@@ -210,7 +210,7 @@ PROPS = {
         "components": {"real": ["net/ntske ReadData, ExchangeMsg.Pack, cookies", "net/nts EncodePacket/DecodePacket/Process*", "net/ntp EncodePacket/DecodePacket", "net/csptp Encode*/Decode*", "core/server newNTSKEMsg", "crypto/tls"],
                        "stub": dict(STUBS_COMMON, **{"TCP": "simnet streams with explicit cut positions"})},
         "assumptions": ["the 'for all field values' quantifier of the codec clauses is covered by generation only (8/16-bit fields are swept across the runs of a batch, wider fields are random); only the segmentation clause is a schedule property",
-                        "NTS requests that would exceed 1024 bytes (known finding F13) are not generated here"],
+                        "NTS requests larger than nts.MaxPacketLen (cookies longer than this project's in all eight fields) are not generated here"],
     },
     "C15": {
         "level": "exploration",
@@ -340,7 +340,7 @@ PROPS["C10"].update(
     technique="deterministic simulation with enumerated in-flight corruption faults")
 PROPS["C11"].update(
     level_text="seeded exploration of exchange histories with loss bursts, idle days (key rotation/retirement) and re-keying between the real NTS client, key-exchange server and NTP listeners; a wire monitor decides cookie single use, cookie/placeholder typing and count, request and reply size, reply authenticity, freshness and validity of issued cookies; pool accounting after every attempt. Evidence, not proof.",
-    level_note="IP and SCION transport (pool level 1, where known finding F13 strikes, over IP only); the monitor's field walker and AEAD check are independent of the repository's decoder; server restart is not injected in this tier",
+    level_note="IP and SCION transport, all pool levels 1..8; the maximum packet size is the one the implementation declares (nts.MaxPacketLen); the monitor's field walker and AEAD check are independent of the repository's decoder; server restart is not injected in this tier",
     technique="deterministic simulation with fault injection: scripted loss bursts and virtual-time key rotation, wire monitor + pool model")
 PROPS["C12"].update(
     level_text="seeded exploration of call histories and statement-level interleavings of the real Provider under a virtual clock over weeks of virtual time; per-call invariants from the statement plus a porcupine linearizability check against a permissive model. Evidence, not proof.",
